@@ -784,24 +784,24 @@ def check(run):
                 "of the static (always_no_*) against the dynamic (is_no_*) field predicates; container keywords; encoder "
                 "return kinds against announced primitives; de-duplicated $defs names.")
     F = Folder(run.repo)
-    r13a(run, F)
-    r13b(run)
-    r13c(run)
-    r13d(run)
-    r13e(run)
-    r13f(run)
-    r13g(run, F)
-    r13h(run)
-    r13i(run)
+    run.rule(r13a, run, F)
+    run.rule(r13b, run)
+    run.rule(r13c, run)
+    run.rule(r13d, run)
+    run.rule(r13e, run)
+    run.rule(r13f, run)
+    run.rule(r13g, run, F)
+    run.rule(r13h, run)
+    run.rule(r13i, run)
     from . import c06
     _pd, _A, _B = c06.siblings(run)
-    c06.r06f(run, _A, _B)
+    run.rule(c06.r06f, run, _A, _B)
     # additionalProperties says whether unknown keys are rejected / kept / converted: only if the extra-key pass runs
     # whenever the addition policy says so (shared with C06 / C12)
     run.rules_run.append("R06i")
-    c06.r06i(run, _A, _B)
+    run.rule(c06.r06i, run, _A, _B)
     # the generator describes each class by parser.options / output_options of that class: the parser must parse a nested
     # class under exactly those (shared with C18)
     from . import c18
     run.rules_run.append("R18i")
-    c18.r18i(run)
+    run.rule(c18.r18i, run)
